@@ -28,7 +28,7 @@ def levels(tier):
         ]
     return [
         {"name": "short-n1", "pools": [short, short3], "absent": [1, 1], "n": 1, "alphabet": alpha, "backends": ["memory", "file"], "links_batch": 2},
-        {"name": "short-n2", "pools": [short], "absent": [1, 1], "n": 2, "alphabet": alpha, "backends": ["memory", "file"], "links_batch": 2},
+        {"name": "short-n2", "pools": [short], "absent": [1], "n": 2, "alphabet": alpha, "backends": ["memory"], "links_batch": 1},
         {"name": "short-L2", "pools": [short], "L2": True, "absent": [2], "n": 2, "alphabet": ["page", "links", "we"], "backends": ["memory"], "links_batch": 1},
         {"name": "long-n1", "pools": longs, "sparse": True, "absent": [74, 1], "n": 1, "alphabet": alpha, "backends": ["file", "memory"], "links_batch": 2},
         {"name": "long-n2", "pools": longs, "sparse": True, "absent": [74], "n": 2, "alphabet": alpha, "backends": ["file", "memory"], "links_batch": 1},
